@@ -43,7 +43,18 @@ NumsPos == <<I(1), Fr(1, 1), Fr(3, 1), Fr(5, 1), Fr(7, 1), I(2), I(3), I(4), I(9
              Pw2(53), Pw2(31), Pw2(32), Pw2(-30), Pw2(-40), Pw2(-1022), Pw2(1023),
              MS!MaxD, MS!MinD, MS!HalfPi, MS!ConstPI, MS!QuartPi, MS!ConstE,
              I(709), I(710), I(745), I(746), I(100), I(1024), I(5), I(7), Fr(13, 3), Fr(1, 10)>>
-NumSeq == <<NaN, I(0), NZero, PInf, NInf>> \o NumsPos \o [i \in 1..Len(NumsPos) |-> NumNeg(NumsPos[i])]
+(* thorough tier: more magnitudes (squares, cubes, powers of two around the exponent limits, decimal fractions) *)
+NumsMore == IF ~Thorough THEN <<>>
+            ELSE <<I(6), I(8), I(11), I(12), I(13), I(15), I(17), I(25), I(27), I(32), I(49), I(64), I(81), I(255), I(256), I(1000),
+                   I(65536), I(708), Fr(3, 2), Fr(5, 2), Fr(3, 3), Fr(1419, 1), Fr(1, 4), Fr(1, 20), Fr(1, 26), Fr(1, 27),
+                   Pw2(-1073), Pw2(-1023), Pw2(52), Pw2(54), Pw2(63), Pw2(64), Pw2(100), Pw2(-100), Pw2(511), Pw2(512), Pw2(-537), Pw2(-538),
+                   Pw2(1000), Pw2(-1000), Pw2(1001), Big(<<3>>, 1022), Big(<<3>>, -1074),
+                   DecToNum(FALSE, <<1>>, 21), DecToNum(FALSE, <<1>>, -7), DecToNum(FALSE, <<1>>, -1), DecToNum(FALSE, <<2>>, -1),
+                   DecToNum(FALSE, <<3>>, -1), DecToNum(FALSE, <<1>>, 308), DecToNum(FALSE, <<1>>, -308), DecToNum(FALSE, <<1>>, 300),
+                   DecToNum(FALSE, <<15>>, -1), MS!ThreeQuartPi, MS!SixthPi, MS!ConstLN2, MS!ConstSQRT2, MS!ConstSQRT1_2,
+                   NumMul(MS!ConstPI, I(2)), NumMul(MS!ConstPI, I(1000))>>
+NumsAll == NumsPos \o NumsMore
+NumSeq == <<NaN, I(0), NZero, PInf, NInf>> \o NumsAll \o [i \in 1..Len(NumsAll) |-> NumNeg(NumsAll[i])]
 NumVals == [i \in 1..Len(NumSeq) |-> NumV(NumSeq[i])]
 
 RetP(v) == [k |-> "ret", v |-> v]
